@@ -13,3 +13,10 @@ build_harness() { # build_harness <out> [go build flags...]
   return 1
 }
 prepare_default() { build_harness "$S/check" && CHECK_BIN=$S/check; }
+
+build_race() { build_harness "$S/check.race" -race && export VERIF_RACE_BIN=$S/check.race; }
+build_asan() { # optional: failure is not fatal, the part is reported inconclusive by the driver
+  (cd "$VERIF_ROOT/harness" && GOWORK=off CGO_ENABLED=1 "$GO_BIN" build -tags verif -asan -o "$S/check.asan" ./cmd/check) 2>>"$S/build.err" && export VERIF_ASAN_BIN=$S/check.asan
+  return 0
+}
+prepare_C08() { prepare_default && build_race; }
